@@ -134,7 +134,8 @@ def generic_cases(draw, nums=("frac",)):
         kind = "absent"
     elif kind == "end":
         nodes = [draw(st.sampled_from([bk[0], bk[-1]]))]
-    return {"curve": c, "nodes": nodes, "kind": kind, "tolerance": draw(st.sampled_from(TOLS))}
+    return {"curve": c, "nodes": nodes, "kind": kind, "tolerance": draw(st.sampled_from(TOLS)),
+            "decoy": draw(st.integers(0, 2)) == 0}
 
 
 @st.composite
@@ -194,6 +195,14 @@ def check_generic(case, out):
     else:
         req = "present"
     out.cls(kind, "request=" + req, "tolerance=" + (tolc if isinstance(tolc, str) else "explicit"))
+    if case.get("decoy") and req == "present":
+        # history: an unconstrained projection between the same two knot vectors happened before (stale caches)
+        out.cls("decoy-projection-first")
+        try:
+            lib.Curve([lib.conv_knot(u, num) for u in newU]).fit_curve(curve)
+        except Exception as exc0:
+            if not lib.from_library(exc0):
+                raise
     snap = lib.snapshot(curve)
     try:
         call_remove(curve, lnodes, tolc)
